@@ -353,6 +353,16 @@ theorem iterRun_conf (prog : List IterOp) (t : TreeTable) (it : TreeIter) (m : M
     simp only [iterRun]
     exact s.libcSame.trans (ih _ _ _ (by rw [iterStep_triple, ht]))
 
+theorem iterRun_libc_live (prog : List IterOp) (t : TreeTable) (it : TreeIter) (m : Mem) (ht : t.triple = .libc) :
+    (t.iterRun cmp it prog m).2.2.2.live = m.live := by
+  induction prog generalizing t it m with
+  | nil => rfl
+  | cons op rest ih =>
+    have s := iterStep_mem (cmp := cmp) t it op m
+    rw [ht] at s
+    simp only [iterRun]
+    rw [ih _ _ _ (by rw [iterStep_triple, ht]), s.confSame.1]
+
 end CC.TreeTable
 
 namespace CC.TreeSet
